@@ -176,7 +176,11 @@ func table() []mech {
 				// the same expression text in several variants: with different messages and at different positions
 				m(`{"expressions":[{"expression":"Subject.ID == 'nobody'","message":"variant three says no"}]}`),
 				m(`{"expressions":[{"expression":"Subject.ID == 'nobody'","message":"variant four says no"}]}`),
-				m(`{"expressions":[{"expression":"true"},{"expression":"Subject.ID == 'nobody'"}]}`)}},
+				m(`{"expressions":[{"expression":"true"},{"expression":"Subject.ID == 'nobody'"}]}`),
+				// (functions of heimdall's own CEL library which keep what they worked out)
+				m(`{"expressions":[{"expression":"\"10.1.2.3\" in networks(\"10.0.0.0/8\")"}]}`),
+				m(`{"expressions":[{"expression":"\"10.1.2.3\" in networks(Request.Header(\"X-Net\"))"}]}`),
+				m(`{"expressions":[{"expression":"[\"10.1.2.3\", \"192.168.1.1\"] in networks([\"10.0.0.0/8\", \"192.168.0.0/16\"])"}]}`)}},
 		{Name: "remote", Category: "authorizer", Type: "remote", Proto: func() config.MechanismConfig {
 			return config.MechanismConfig{"endpoint": ep("/authz"), "payload": `{"s":"{{ .Subject.ID }}","v":"{{ .Values.a }}"}`, "values": m(`{"a":"proto-a","b":"proto-b"}`),
 				"expressions": []any{m(`{"expression":"Payload.level >= 1"}`)}, "forward_response_headers_to_upstream": []any{"X-Remote-Echo"}}
@@ -451,6 +455,7 @@ func TestConcurrentExecutionIsRaceFree(t *testing.T) {
 		wg       sync.WaitGroup
 		stop     atomic.Bool
 		n        atomic.Int64
+		failing  atomic.Int64
 		mu       sync.Mutex
 		baseline = map[ruleRef]string{}
 		diverged string
@@ -466,6 +471,25 @@ func TestConcurrentExecutionIsRaceFree(t *testing.T) {
 
 			for i := g; !stop.Load(); i++ {
 				r := refs[(i*7+g)%len(refs)]
+
+				if g >= 10 {
+					// two of the goroutines come without the credentials / headers the mechanisms look for: executions which
+					// fail are executions as well (what they leave behind is the race detector's business)
+					_, _ = w.Send(vkit.EntryDecision, vkit.LogicalRequest{Method: "GET", Host: "svc.example.com", RawPath: r.path()}, nil)
+					failing.Add(1)
+
+					continue
+				}
+
+				if tab[r.Mech].Name == "cel" && i%2 == 0 {
+					// (an argument which changes from request to request, for what the expressions of this mechanism remember)
+					_, _ = w.Send(vkit.EntryDecision, vkit.LogicalRequest{Method: "GET", Host: "svc.example.com", RawPath: r.path(),
+						Headers: []vkit.HeaderKV{{Name: "X-Net", Value: fmt.Sprintf("10.%d.0.0/16", i%250)}}}, nil)
+					n.Add(1)
+
+					continue
+				}
+
 				b := behaviour(w, tab, r, &dummy)
 				n.Add(1)
 
@@ -484,8 +508,33 @@ func TestConcurrentExecutionIsRaceFree(t *testing.T) {
 	stop.Store(true)
 	wg.Wait()
 
+	// one rule whose expression hands a function of heimdall's CEL library an argument which differs from request to request,
+	// asked from 8 goroutines at once
+	for _, r := range refs {
+		if tab[r.Mech].Name != "cel" || r.Variant < 0 || !strings.Contains(fmt.Sprint(tab[r.Mech].Overrides[r.Variant]), "X-Net") {
+			continue
+		}
+
+		for g := 0; g < 8; g++ {
+			wg.Add(1)
+
+			go func(g int) {
+				defer wg.Done()
+
+				for i := 0; i < 300; i++ {
+					_, _ = w.Send(vkit.EntryDecision, vkit.LogicalRequest{Method: "GET", Host: "svc.example.com", RawPath: r.path(),
+						Headers: []vkit.HeaderKV{{Name: "X-Net", Value: fmt.Sprintf("10.%d.%d.0/24", g, i%250)}}}, nil)
+					n.Add(1)
+				}
+			}(g)
+		}
+
+		wg.Wait()
+	}
+
 	vkit.S.EvalN(n.Load())
 	vkit.S.Note("concurrent_executions", n.Load())
+	vkit.S.Note("concurrent_executions_without_credentials", failing.Load())
 	vkit.S.Note("prototypes_and_variants", int64(len(refs)))
 	vkit.S.NonTrivial("concurrent-1", map[string]any{"concurrent": true, "goroutines": 12, "executions": n.Load(), "objects": len(refs)})
 	vkit.S.NonTrivial("concurrent-2", nil)
